@@ -25,6 +25,8 @@ import (
 	kerrors "k8s.io/apimachinery/pkg/api/errors"
 	"k8s.io/apimachinery/pkg/apis/meta/v1/unstructured"
 	"k8s.io/apimachinery/pkg/runtime/schema"
+	"k8s.io/apimachinery/pkg/types"
+	"k8s.io/apimachinery/pkg/util/strategicpatch"
 	"sigs.k8s.io/controller-runtime/pkg/client"
 )
 
@@ -74,11 +76,17 @@ func c20Lie(r c20Run) bool {
 	return r.K >= 0 && r.O == "fail" && (r.Cls == "notFound" || r.Cls == "alreadyExists")
 }
 
+// c20LieCls: the run's fault, wherever it hits, is of such a class.
+func c20LieCls(r c20Run) bool {
+	return r.O == "fail" && (r.Cls == "notFound" || r.Cls == "alreadyExists")
+}
+
 // c20Client is the client.Client the real initializer runs against.
 type c20Client struct {
 	*Store
 	cls       string
-	rewritten string // the class actually served when `cls` would have been impossible (see fix)
+	rewritten string         // the class actually served when `cls` would have been impossible (see fix)
+	pre       func(call int) // lets the other writers of the window of call number `call` act now (idempotent)
 }
 
 func (c *c20Client) fix(n0 int, gk schema.GroupKind, name string, err error) error {
@@ -146,7 +154,50 @@ func (c *c20Client) Update(ctx context.Context, obj client.Object, opts ...clien
 
 func (c *c20Client) Patch(ctx context.Context, obj client.Object, patch client.Patch, opts ...client.PatchOption) error {
 	n0 := len(c.Store.Log)
+	if patch.Type() == types.StrategicMergePatchType {
+		patch = c.strategic(obj, patch)
+	}
 	return c.fix(n0, c.gk(obj), obj.GetName(), c.Store.Patch(ctx, obj, patch, opts...))
+}
+
+// strategic: simstore applies a strategic merge patch as if it were a JSON merge patch. The API server does not:
+// lists with a merge key (the `webhooks` of a webhook configuration: by `name`) are merged entry by entry, entries
+// the patch does not name are KEPT. Compute what the API server would store (k8s.io/apimachinery strategicpatch on
+// the typed object, against the object as stored right now - after whatever another writer does in the window of
+// this call) and hand that to simstore as the JSON merge patch that produces it.
+func (c *c20Client) strategic(obj client.Object, patch client.Patch) client.Patch {
+	st := c.Store
+	if st.Crashed() {
+		return patch
+	}
+	gvk, err := st.GroupVersionKindFor(obj)
+	if err != nil {
+		return patch
+	}
+	typed, err := st.Scheme().New(gvk)
+	if err != nil {
+		return patch // not a typed object: no merge keys known
+	}
+	data, err := patch.Data(obj)
+	if err != nil {
+		return patch
+	}
+	if c.pre != nil {
+		c.pre(st.Calls)
+	}
+	cur := st.Peek(gvk.GroupKind(), obj.GetNamespace(), obj.GetName())
+	if cur == nil {
+		return patch
+	}
+	orig, err := json.Marshal(cur.Object)
+	if err != nil {
+		return patch
+	}
+	merged, err := strategicpatch.StrategicMergePatch(orig, data, typed)
+	if err != nil {
+		return patch
+	}
+	return client.RawPatch(types.MergePatchType, merged)
 }
 
 func (c *c20Client) Delete(ctx context.Context, obj client.Object, opts ...client.DeleteOption) error {
